@@ -195,11 +195,12 @@ theorem rxStream_rinv {c : Conn} (h : RInv c) (sid off : Nat) (d : Bytes) (fin :
             split
             · exact h'
             · rename_i r ev hh
-              obtain ⟨k1, k2, _⟩ := handleFrame_recvOK hi.2 hh
+              obtain ⟨k1, k2, _⟩ := handleFrame_recvOK hi.2.1 hh
+              have k3 := handleFrame_finOK hi.2.2 hh
               simp only [] at k2
               refine h'.update (c' := { c'.setStrm { st with recv := r } with
                   localMaxData := { c'.localMaxData with used := c'.localMaxData.used + (off + d.length - st.recv.highest) } })
-                rfl (st0 := st) (st := { st with recv := r }) hm rfl rfl (by show st.recv.highest ≤ r.highest; omega) ?_ ?_ rfl ⟨?_, k1⟩
+                rfl (st0 := st) (st := { st with recv := r }) hm rfl rfl (by show st.recv.highest ≤ r.highest; omega) ?_ ?_ rfl ⟨?_, k1, k3⟩
               · show c'.localMaxData.used + (off + d.length - st.recv.highest) = c'.localMaxData.used + (r.highest - st.recv.highest)
                 omega
               · show c'.localMaxData.used + (off + d.length - st.recv.highest) ≤ c'.localMaxData.value
@@ -228,7 +229,7 @@ theorem rxResetStream_rinv {c : Conn} (h : RInv c) (sid z : Nat) : RInv (rxReset
           · rename_i r hh
             have hq : c'.quirks.resetKeepsHighest = false := h'.fixed
             have hr : r.highest = max st.recv.highest z ∧ r.buffer = st.recv.buffer ∧
-                r.bufStart = st.recv.bufStart ∧ r.ranges = st.recv.ranges := by
+                r.bufStart = st.recv.bufStart ∧ r.ranges = st.recv.ranges ∧ r.finalSize = some z := by
               unfold handleResetQ handleReset at hh
               simp only [hq, Bool.false_eq_true, if_false] at hh
               cases hfs : st.recv.finalSize with
@@ -238,11 +239,12 @@ theorem rxResetStream_rinv {c : Conn} (h : RInv c) (sid z : Nat) : RInv (rxReset
                 · subst hw; simp [hfs] at hh; subst hh; simp
                 · simp [hfs, hw] at hh
             have hok : RecvOK r := by
-              refine ⟨by rw [hr.2.1, hr.2.2.1, hr.1]; have := hi.2.1; omega, ?_⟩
-              intro x hx; rw [hr.2.2.2] at hx; have := hi.2.2 x hx; rw [hr.1]; omega
+              refine ⟨by rw [hr.2.1, hr.2.2.1, hr.1]; have := hi.2.1.1; omega, ?_⟩
+              intro x hx; rw [hr.2.2.2.1] at hx; have := hi.2.1.2 x hx; rw [hr.1]; omega
+            have hfinok : FinOK r := by intro _; rw [hr.2.2.2.2]; rfl
             refine h'.update (c' := { c'.setStrm { st with recv := r } with
                 localMaxData := { c'.localMaxData with used := c'.localMaxData.used + (z - st.recv.highest) } })
-              rfl (st0 := st) (st := { st with recv := r }) hm rfl rfl (by show st.recv.highest ≤ r.highest; omega) ?_ ?_ rfl ⟨?_, hok⟩
+              rfl (st0 := st) (st := { st with recv := r }) hm rfl rfl (by show st.recv.highest ≤ r.highest; omega) ?_ ?_ rfl ⟨?_, hok, hfinok⟩
             · show c'.localMaxData.used + (z - st.recv.highest) = c'.localMaxData.used + (r.highest - st.recv.highest)
               omega
             · show c'.localMaxData.used + (z - st.recv.highest) ≤ c'.localMaxData.value
